@@ -9,7 +9,7 @@ def presented (l : Line) : _root_.C04.Presented :=
 
 def tokOf (l : Line) (label : String) (refresh : Bool) : _root_.C08.Tok :=
   { label := label, client := str l "client", subject := str l "sub", audience := list l "aud", issuer := str l "iss",
-    refresh := refresh, grant := str l "grant", exp := int l (if refresh then "rtexp" else "exp") }
+    refresh := refresh, jwt := bool l "jwt" && !refresh, grant := str l "grant", exp := int l (if refresh then "rtexp" else "exp") }
 
 /-- the observable events of a line (a token response hands out an access token and possibly a refresh token) -/
 def evsOf (l : Line) : List _root_.C08.Ev :=
@@ -27,7 +27,7 @@ def evsOf (l : Line) : List _root_.C08.Ev :=
 
 def monStep (m : _root_.C08.MonState) (l : Line) : _root_.C08.MonState × Option String :=
   if str l "op" == "reset" then
-    ({ base := { issuer := str l "issuer", clients := Drv.Flow.parseClients l, jwtMaxAgeIAT := 3600 * Go.second, jwtOffset := Go.second } }, none)
+    ({ base := { issuer := str l "issuer", clients := Drv.Flow.parseClients l, jwtMaxAgeIAT := 3600 * Go.second, jwtOffset := Go.second }, flat := bool l "flat" }, none)
   else if str l "obs" == "panic" then (m, some "panic")
   else
     let now0 := int l "now0"
